@@ -23,9 +23,38 @@ def syms_of(s):
     return out
 
 
+def suffix_pcr_pair(k, rnd):
+    """appending statements near the 8/16-bit PCR limit: the sizes chosen for the statements already there must not change"""
+    from harness.props import c03
+    n = rnd.randint(3, 6)
+    items = []
+    for i in range(1, n + 1):
+        if rnd.random() < 0.4:
+            items.append({"k": "fix", "sz": rnd.choice([0, 1, 3, 110, 116, 117, 118, 119, 120, 121, 122, 123, 124, 125, 126, 127, 128]), "tgt": 0, "base": 0, "mx": 0})
+            items[-1]["mx"] = items[-1]["sz"]
+        else:
+            items.append({"k": "pcr", "sz": 0, "tgt": rnd.randint(1, n), "base": rnd.choice([2, 3]), "mx": 0})
+    if not any(it["k"] == "pcr" for it in items):
+        items[0] = {"k": "pcr", "sz": 0, "tgt": n, "base": 2, "mx": 0}
+    base = c03.sizing_case(items).prog
+    extra = []
+    for j in range(rnd.randint(1, 3)):
+        if rnd.random() < 0.8:
+            extra.append(stmt(rnd.choice(["LEAS", "LDA", "LDY"]), "pcr", label="Z%d" % j, expr=ex(sym("L%d" % rnd.randint(1, min(n, 2))))))
+        else:
+            extra.append(stmt("RMB", "rmb", label="Z%d" % j, expr=ex(num(rnd.choice([1, 5, 100, 120])))))
+    linesA = [asmio.render(s) for s in base]
+    linesB = linesA + [asmio.render(s) for s in extra]
+    a, b = asmio.assemble(list(linesA)), asmio.assemble(list(linesB))
+    return {"id": k, "D": 0, "absref": [], "moved": [], "labels": [], "ren": [], "tkind": "suffix-pcr", "kind": "suffix",
+            "a": out_of(a), "b": out_of(b), "linesA": linesA, "linesB": linesB}
+
+
 def make_pair(args):
     k, seed = args
     rnd = random.Random(seed)
+    if k % 3 == 2:
+        return suffix_pcr_pair(k, rnd)
     for _ in range(20):
         prog, kind = proggen.gen_program(rnd, 3, 14, faults=False)
         orgs = [i for i, s in enumerate(prog) if s["mn"] == "ORG"]
@@ -102,14 +131,38 @@ def make_pair(args):
     return t
 
 
+def model_suffix_pair(args):
+    """(program, appended item) pairs exported by TLC over the sizing alphabet"""
+    from harness.props import c03
+    k, rec = args
+    base = c03.sizing_case(rec["prog"]).prog
+    x = rec["x"]
+    extra = [stmt("LEAS" if x["base"] == 2 else "LDY", "pcr", label="Z0", expr=ex(sym("L%d" % x["tgt"])))]
+    linesA = [asmio.render(s) for s in base]
+    linesB = linesA + [asmio.render(s) for s in extra]
+    a, b = asmio.assemble(list(linesA)), asmio.assemble(list(linesB))
+    return {"id": k, "D": 0, "absref": [], "moved": [], "labels": [], "ren": [], "tkind": "suffix-model", "kind": "suffix",
+            "a": out_of(a), "b": out_of(b), "linesA": linesA, "linesB": linesB}
+
+
 def run(ctx):
     thorough = ctx.tier == "thorough"
     rnd = random.Random(ctx.seed * 961748941 + 18)
     c01.gates(ctx, thorough)
+    # the sizing algorithm itself is prefix-stable: theorem of AsmSizing evaluated by TLC for all programs of <= 3 (thorough: 4) items x appended item
+    recs, w = tlc.export_parts("MC_SizingPrefix", 8, env={"MAXN": "4" if thorough else "3"}, timeout=3000, heap="4g")
+    if sum(r["bad"] for r in recs):
+        raise tlc.MachineryError("MC_SizingPrefix: the sizing model is not prefix-stable: %r" % [r["example"] for r in recs if r["bad"]][:1])
+    ctx.cov["models"]["MC_SizingPrefix"] = {"kind": "theorem evaluated by TLC", "programs": sum(r["progs"] for r in recs), "wall_s": round(w, 2)}
     t0 = time.time()
     n = 60000 if thorough else 4000
+    pairs, r = tlc.export("Gen_SizingPrefix", env={"N": "1400" if thorough else "700", "FULL4": "0"}, extra=["-seed", str(ctx.seed + 3)])
+    if thorough:
+        more, r2 = tlc.export("Gen_SizingPrefix", env={"N": "0", "FULL4": "1"}, heap="6g", timeout=1800)
+        pairs += more
     with mp.Pool(16) as pool:
         ts = [t for t in pool.map(make_pair, [(k, rnd.randrange(1 << 40)) for k in range(n)], chunksize=50) if t]
+        ts += pool.map(model_suffix_pair, [(n + j, p) for j, p in enumerate(pairs)], chunksize=50)
     recs = [{k: v for k, v in t.items() if k not in ("linesA", "linesB", "tkind")} for t in ts]
     verd, st = tlc.bulk("Tr_Pair", recs, nproc=6, heap="4g")
     nv = 0
@@ -129,7 +182,7 @@ def run(ctx):
     ctx.sample({"transform": ts[0]["tkind"], "linesA": ts[0]["linesA"], "linesB": ts[0]["linesB"]})
     ctx.cov["rule"] = ("random accepted programs (label references of the forms label, label+n, label-n; one ORG) x transform {origin shift D on the same side of $100, label "
                        "bijection incl. names containing register letters, white space between fields, comments added / changed / removed (with ,X # quotes ;), mnemonic case, "
-                       "appended suffix}; both assemblies recorded as one pair trace and judged by TLC with Session!Relocated / Renamed / SameOutput / PrefixStable. "
+                       "appended suffix}, plus a family of programs near the 8/16-bit label,PCR limit with appended PCR statements; both assemblies recorded as one pair trace and judged by TLC with Session!Relocated / Renamed / SameOutput / PrefixStable. "
                        "distinct_nontrivial = (transform, outcome, size) classes")
 
 
